@@ -168,8 +168,14 @@ class SInt:
         return _mk(T(o) / s.t)
 
     def __truediv__(s, o):
-        raise Unsupported("true division of a symbolic int (float result)")
-    __rtruediv__ = __truediv__
+        if isinstance(o, (int, SInt)):
+            return SRatio(s, o)       # exact rational; the harness inspects numerator and denominator
+        raise Unsupported("true division of a symbolic int by a float")
+
+    def __rtruediv__(s, o):
+        if isinstance(o, int):
+            return SRatio(o, s)
+        raise Unsupported("true division of a float by a symbolic int")
 
     def __pow__(s, o):
         if isinstance(o, int) and 0 <= o <= 4:
@@ -306,6 +312,15 @@ class HInt(SInt):
         return SInt.__floordiv__(s, o)
 
 
+class SRatio:
+    """result of int / int on symbolic operands: kept as the exact pair (the float rounding of the quotient is not modelled)"""
+    def __init__(self, num, den):
+        self.num, self.den = num, den
+
+    def __float__(self):
+        raise Unsupported("float value of a symbolic ratio")
+
+
 numbers.Integral.register(SInt)
 
 
@@ -437,7 +452,7 @@ def _bitop(op, a, b):
         w = min(w_ for w_ in (wa, wb) if w_ is not None)
         ba, _ = _split(a, w)
         bb, _ = _split(b, w)
-        return _from_bits([z3.And(p, q) for p, q in zip(ba, bb)])
+        return _from_bits([z3.And(*_canon(p, q)) for p, q in zip(ba, bb)])
     if wa is None or (wb is not None and wb < wa):
         small, wide, w = b, a, wb
     else:
@@ -445,7 +460,12 @@ def _bitop(op, a, b):
     bw, high = _split(wide, w)
     bs, _ = _split(small, w)
     f = z3.Or if op == "or" else z3.Xor
-    return _from_bits([f(p, q) for p, q in zip(bw, bs)], high)
+    return _from_bits([f(*_canon(p, q)) for p, q in zip(bw, bs)], high)
+
+
+def _canon(*ts):
+    """commutative arguments in a canonical order, so that a|b and b|a are the same term"""
+    return sorted(ts, key=lambda t: t.get_id())
 
 
 def popcount(x):
@@ -593,11 +613,11 @@ class Engine:
     @staticmethod
     def and_(*cs):
         cs = cs[0] if len(cs) == 1 and isinstance(cs[0], (list, tuple)) else cs
-        return z3.And(*[B(c) for c in cs]) if cs else z3.BoolVal(True)
+        return z3.And(*_canon(*[B(c) for c in cs])) if cs else z3.BoolVal(True)
     @staticmethod
     def or_(*cs):
         cs = cs[0] if len(cs) == 1 and isinstance(cs[0], (list, tuple)) else cs
-        return z3.Or(*[B(c) for c in cs]) if cs else z3.BoolVal(False)
+        return z3.Or(*_canon(*[B(c) for c in cs])) if cs else z3.BoolVal(False)
     @staticmethod
     def not_(c): return z3.Not(B(c))
     @staticmethod
@@ -621,6 +641,13 @@ class Engine:
     @staticmethod
     def bitlist(x, w):
         return bitlist(x, w)
+
+    def ratio_is(self, r, num, den):
+        """r (result of `a / b` in the library) is the quotient num/den"""
+        if isinstance(r, SRatio):
+            return self.and_(self.eq(r.num, num), self.eq(r.den, den))
+        n, d = self.conc(num), self.conc(den)
+        return d != 0 and r == n / d
 
     @staticmethod
     def popcount(x):
@@ -752,7 +779,7 @@ class Engine:
                     self._violation(label, self.solver.model())
                 elif r == "unknown":
                     self.unknown.append(("check", label))
-                raise PathEnd()
+                return False        # the path goes on: later labels are still checked
             self.proved[label] = self.proved.get(label, 0) + 1
             return True
         r = self._check(z3.Not(cond))
